@@ -33,6 +33,17 @@ fn opts(cmd: &Value) -> DecoderOption {
     o
 }
 
+fn opts_of(state: &H263State, cmd: &Value) -> DecoderOption {
+    let mut o = DecoderOption::empty();
+    if state.is_sorenson() {
+        o |= DecoderOption::SORENSON_SPARK_BITSTREAM;
+    }
+    if cmd["scal"].as_bool().unwrap_or(false) {
+        o |= DecoderOption::USE_SCALABILITY_MODE;
+    }
+    o
+}
+
 fn fresh_reader() -> (H263Reader<Growing>, Growing) {
     let g = Growing { data: Rc::new(RefCell::new((Vec::new(), 0, 0))) };
     (H263Reader::from_source(g.clone()), g)
@@ -95,6 +106,7 @@ fn observe(d: &mut Dec, ev: &mut Value, planes: bool) {
             ev["has_last"] = json!(false);
         }
     }
+    ev["ropt"] = json!(d.state.verif_running_options().bits());
     ev["probe"] = probe(&mut d.reader);
 }
 
@@ -133,11 +145,32 @@ pub fn history(ctx: &mut Ctx, cmd: &Value) -> Vec<Value> {
         },
         "decode" => match ctx.decs.get_mut(&id) {
             Some(d) => {
-                {
+                if !cmd["pre"].as_bool().unwrap_or(false) {
                     let b = bytes(&cmd["bytes"]);
                     let mut s = d.src.data.borrow_mut();
                     s.0.extend_from_slice(&b);
                     s.1 = s.0.len();
+                }
+                // The property excludes inputs whose declared picture size would not fit in memory:
+                // with "guard_size" the header is pre-parsed with the public parser on a copy of the
+                // data and calls declaring more than 2^22 luma samples are skipped (and counted).
+                if cmd["guard_size"].as_bool().unwrap_or(false) {
+                    let copy = bytes(&cmd["bytes"]);
+                    let g = Growing { data: Rc::new(RefCell::new((copy.clone(), copy.len(), 0))) };
+                    let mut rd = H263Reader::from_source(g);
+                    let prev = d.state.get_last_picture().map(|p| p.as_header());
+                    let parsed = guarded(|| decode_picture(&mut rd, opts_of(&d.state, cmd), prev));
+                    if let Ok(Ok(Some(p))) = parsed {
+                        if let Some(f) = p.format {
+                            if let Some((w, h)) = f.into_width_and_height() {
+                                if (w as u64) * (h as u64) > (1u64 << 22) {
+                                    ev["ret"] = json!("skipped:declared-size-too-large");
+                                    ev["rc"] = json!("skip");
+                                    return vec![ev];
+                                }
+                            }
+                        }
+                    }
                 }
                 let r = guarded(|| d.state.decode_next_picture(&mut d.reader));
                 match r {
@@ -150,8 +183,11 @@ pub fn history(ctx: &mut Ctx, cmd: &Value) -> Vec<Value> {
                         ev["rc"] = json!("err");
                     }
                     Err(m) => {
+                        // "site" = source file and line of the panic, so that distinct defects stay distinct
+                        let site = m.rsplit(" @ ").next().unwrap_or("").rsplit('/').next().unwrap_or("").to_string();
                         ev["ret"] = json!(format!("panic:{}", m));
                         ev["rc"] = json!("panic");
+                        ev["site"] = json!(site);
                     }
                 }
                 if ev["rc"] != "panic" {
